@@ -324,6 +324,44 @@ impl Check for C17 {
                 }
                 let back = catch(|| BaseIri::new(base).unwrap().resolve(r.as_str()).map(|x| x.unwrap()).map_err(|e| e.to_string()));
                 let rfc_back = rfc::resolve(base, &r);
+                // every resolution entry point must give the IRI back, not only BaseIri::resolve(&str)
+                let others: Vec<(&str, Result<Result<String, String>, String>)> = vec![
+                    (
+                        "BaseIri::resolve_into(&str)",
+                        catch(|| {
+                            let mut buf = String::from("junk");
+                            buf.clear();
+                            BaseIri::new(base).unwrap().resolve_into(r.as_str(), &mut buf).map(|x| x.unwrap().to_string()).map_err(|e| e.to_string())
+                        }),
+                    ),
+                    (
+                        "BaseIri::resolve_into(IriRef)",
+                        catch(|| {
+                            let mut buf = String::new();
+                            let x = BaseIri::new(base.to_string()).unwrap().resolve_into(sophia_iri::IriRef::new(r.as_str()).map_err(|e| e.to_string())?, &mut buf);
+                            Ok(x.unwrap().to_string())
+                        }),
+                    ),
+                    (
+                        "Iri::resolve(IriRef)",
+                        catch(|| Ok(Iri::new(base).unwrap().resolve(sophia_iri::IriRef::new(r.as_str()).map_err(|e| e.to_string())?).unwrap())),
+                    ),
+                    (
+                        "BaseIriRef::resolve(&str)",
+                        catch(|| sophia_iri::resolve::BaseIriRef::new(base).map_err(|e| e.to_string())?.resolve(r.as_str()).map(|x| x.unwrap()).map_err(|e| e.to_string())),
+                    ),
+                ];
+                if matches!(&back, Ok(Ok(x)) if x == iri) {
+                    for (name, res) in others {
+                        if !matches!(&res, Ok(Ok(x)) if x == iri) {
+                            ctx.fail(
+                                format!("relativize/wrong-reference-through-other-entry-point/{tr}"),
+                                format!("base {base:?} iri {iri:?} parents {parents}: returned {r:?}, which BaseIri::resolve gives back as the IRI, but {name} gives {res:?}"),
+                            );
+                            return;
+                        }
+                    }
+                }
                 match back {
                     Ok(Ok(x)) if x == iri => {
                         if rfc_back != iri {
